@@ -185,5 +185,18 @@ V[-1]['id'] = 'c16-benign-remove-no-break'
 v('c16-external-writer', 'C16', 'fire', A, "void band_do_hello(band_state *band) {\n    if (!band) {\n        return;\n    }", "static session_table *g_tbl;\nvoid band_do_hello(band_state *band) {\n    if (g_tbl) { g_tbl->count = 0; }\n    if (!band) {\n        return;\n    }", 'R16.a')
 v('c16-benign-find-while', 'C16', 'silent', A, "    for (int i = 0; i < SESSION_TABLE_MAX_ENTRIES; i++) {\n        session_entry *entry = &table->entries[i];\n        if (entry->valid &&\n            mac_equal(entry->mapper_mac, mapper_mac) &&\n            entry->generation == generation) {\n            return entry;\n        }\n    }\n    return NULL;\n}\n\nsession_entry *session_table_add", "    int i = 0;\n    while (i < SESSION_TABLE_MAX_ENTRIES) {\n        session_entry *entry = &table->entries[i];\n        i++;\n        if (!entry->valid) {\n            continue;\n        }\n        if (entry->generation == generation && mac_equal(entry->mapper_mac, mapper_mac)) {\n            return entry;\n        }\n    }\n    return NULL;\n}\n\nsession_entry *session_table_add")
 
+# ---- C12
+v('c12-no-suppression', 'C12', 'fire', A, "                if (last_tx > 0 && now_ms - last_tx < HELLO_MIN_INTERVAL_MS) {", "                if (0) {", 'R12.c')
+v('c12-suppression-500', 'C12', 'fire', A, "                if (last_tx > 0 && now_ms - last_tx < HELLO_MIN_INTERVAL_MS) {", "                if (last_tx > 0 && now_ms - last_tx < HELLO_MIN_INTERVAL_MS / 2) {", 'R12.c')
+v('c12-no-stamp', 'C12', 'fire', A, "                        if (port->last_hello_tx_ms) {\n                            *port->last_hello_tx_ms = now_ms;\n                        }", "", 'R12.c')
+v('c12-send-in-wait', 'C12', 'fire', A, "        if (enumeration->current_state == 1) {\n            if (band->hello_timeout_ts > 0", "        if (enumeration->current_state != 0) {\n            if (band->hello_timeout_ts > 0", 'R12.b')
+v('c12-gate-ignores-complete', 'C12', 'fire', A, "            } else if (all_complete) {\n                switch_state_enumeration(enumeration, enum_sess_complete, \"tick\");", "            } else if (0) {\n                switch_state_enumeration(enumeration, enum_sess_complete, \"tick\");", 'R12.b')
+v('c12-empty-keeps-state', 'C12', 'fire', A, "                lltd_port_log_debug(\"RepeatBand: Table empty, returning to Quiescent\");\n                enumeration->current_state = 0;", "                lltd_port_log_debug(\"RepeatBand: Table empty, returning to Quiescent\");", 'R12.d')
+v('c12-second-caller', 'C12', 'fire', A, "void band_do_hello(band_state *band) {\n    if (!band) {\n        return;\n    }", "void lltd_kick(const lltd_automata_tick_port *p) {\n    if (p && p->send_hello) { p->send_hello(p->network_interface); }\n}\n\nvoid band_do_hello(band_state *band) {\n    if (!band) {\n        return;\n    }", 'R12.a')
+v('c12-stamp-elsewhere', 'C12', 'fire', A, "void band_do_hello(band_state *band) {\n    if (!band) {\n        return;\n    }", "void lltd_forget_tx(const lltd_automata_tick_port *p) {\n    if (p && p->last_hello_tx_ms) { *p->last_hello_tx_ms = 0; }\n}\n\nvoid band_do_hello(band_state *band) {\n    if (!band) {\n        return;\n    }", 'R12.e')
+v('c12-stamp-before-send-zero', 'C12', 'fire', A, "                            *port->last_hello_tx_ms = now_ms;", "                            *port->last_hello_tx_ms = band->hello_timeout_ts;", 'R12.c')
+v('c12-benign-floor-removed', 'C12', 'silent', A, "                    if (band->hello_timeout_ts < now_ms + HELLO_MIN_INTERVAL_MS) {\n                        band->hello_timeout_ts = now_ms + HELLO_MIN_INTERVAL_MS;\n                    }\n", "", note='the post-send deadline floor is redundant: the suppression test alone enforces the 1000 ms spacing')
+v('c12-benign-reorder-reset', 'C12', 'silent', A, "                enumeration->current_state = 0;\n                band->hello_timeout_ts = 0;\n                band->block_timeout_ts = 0;\n                band->begun = false;", "                band->begun = false;\n                band->block_timeout_ts = 0;\n                band->hello_timeout_ts = 0;\n                enumeration->current_state = 0;")
+
 json.dump(V, open(os.path.join(HERE, 'variants.json'), 'w'), indent=1)
 print(len(V), 'variants')
